@@ -229,6 +229,33 @@ Fixpoint history (t : taps) (ms : list molecule) : list (result (list call)) :=
   | m :: ms' => let '(t', r) := process t m in r :: history t' ms'
   end.
 
+(* ---- a history on ONE molecule object: it grows by add_fragment (accepted fragments), add_molecule (all fragments
+   of the other molecule, through _add_fragment) or _add_fragment, and is finalised (obtain_methylation_calls +
+   set_methylation_call_tags) any number of times.  Molecule.get_consensus keeps no result between calls, so a
+   finalise recomputes from the fragments held at that moment; methylation_call_dict keeps the last finalise's
+   answer until the next one (a finalise that raises leaves it untouched). *)
+Inductive mop :=
+| MAdd (fs : list frag)      (* add_fragment: the fragments it accepted ([] when refused) *)
+| MMerge (fs : list frag)    (* add_molecule(other): other's fragments *)
+| MRaw (fs : list frag)      (* _add_fragment *)
+| MFin (c : cfg).            (* __finalise__ ; c carries molecule.strand as it is at that moment *)
+Definition grown (o : mop) : list frag :=
+  match o with MAdd fs => fs | MMerge fs => fs | MRaw fs => fs | MFin _ => [] end.
+Record mstate := mkMS { ms_frags : list frag; ms_dict : option (list call) }.
+Definition mstep (ref : list Z) (st : mstate) (o : mop) : mstate * list (list frag * result (list call)) :=
+  match o with
+  | MFin c =>
+      let r := calls c ref (ms_frags st) in
+      (mkMS (ms_frags st) (match r with OK cs => Some cs | Raise => ms_dict st end), [(ms_frags st, r)])
+  | _ => (mkMS (ms_frags st ++ grown o) (ms_dict st), [])
+  end.
+Fixpoint mol_history (ref : list Z) (st : mstate) (ops : list mop) : mstate * list (list frag * result (list call)) :=
+  match ops with
+  | [] => (st, [])
+  | o :: ops' => let '(st', out) := mstep ref st o in
+                 let '(st'', outs) := mol_history ref st' ops' in (st'', out ++ outs)
+  end.
+
 (* ---- set_methylation_call_tags *)
 Fixpoint letter_at (cs : list call) (pos : Z) : Z :=
   match cs with
@@ -284,6 +311,12 @@ Definition enc_result (fs : list frag) (r : result (list call)) : Val :=
                  VL (map (fun r => VL (ofZs (xm cs r) :: enc_tot (tot cs))) (reads_of fs))]
   end.
 
+Definition dec_mop (v : Val) : mop :=
+  let k := getZ (nthV 0 v) in
+  if k =? 3 then MFin (dec_cfg (nthV 1 v))
+  else let fs := map dec_frag (getL (nthV 1 v)) in
+       if k =? 0 then MAdd fs else if k =? 1 then MMerge fs else MRaw fs.
+
 Definition run_C14 (mode : Z) (v : Val) : Val :=
   let c := dec_cfg v in let ref := dec_ref v in let fs := dec_frags v in
   match mode with
@@ -298,5 +331,10 @@ Definition run_C14 (mode : Z) (v : Val) : Val :=
          let ms := map dec_mol (getL v) in
          if negb (forallb (fun m => wf (m_frags m)) ms) then VL [VZ (-2)]
          else VL (map (fun mr => enc_result (m_frags (fst mr)) (snd mr)) (combine ms (history taps0 ms)))
+  | 5 => (* a history on one molecule object: v = [ref codes; ops], op = [0|1|2; frags] | [3; cfg fields] *)
+         let mref := getZs (nthV 0 v) in
+         let ops := map dec_mop (getL (nthV 1 v)) in
+         if negb (forallb (fun o => wf (grown o)) ops) then VL [VZ (-2)]
+         else VL (map (fun fr => enc_result (fst fr) (snd fr)) (snd (mol_history mref (mkMS [] None) ops)))
   | _ => bad
   end.
